@@ -16,6 +16,31 @@ NEEDS = {
  "C16a": "liquidation where the liquidator receives a position in a bank whose tag conflicts with its existing positions",
  "C16b": "liquidator with default-tag positions seizing collateral of a staked-tag bank from a liquidatee allowed to hold it",
 }
+NEEDS.update({
+ "C02a": "withdraw_all of a position whose native amount is fractional (bank with accrued interest)",
+ "C02b": "account disabled by bankruptcy that still holds other positions, then transfer_to_new_account",
+ "C02c": "classic liquidation whose asset bank has an active deposit cap at or below its deposits",
+ "C02d": "exact-amount withdraw/repay after accrual leaving 0.0001..1 share, then close_balance",
+ "C03a": "repay_all of a fractional liability", "C03b": "partial withdraw while asset and liability share values differ",
+ "C04c": "Pyth debt oracle whose EMA (price or confidence) differs from spot", "C04d": "init-value cap active, deposits near the cap, asset share value off 1",
+ "C07a": "bankruptcy while the collateral bank's oracle is stale", "C07b": "uncovered loss between total shares and total value with share value off 1",
+ "C08a": "config_group assigning the curve role to the key that currently holds the limit role (or revoking it when no limit delegate exists)",
+ "C08b": "staked bank; exactly one of {LST mint, stake account} substituted", "C09c": "same as C08b",
+ "C09a": "Switchboard feed whose 1.96 sigma exceeds the bank's max confidence (>= 5%)", "C09b": "bankruptcy with an unusable collateral oracle",
+ "C09d": "fresh Pyth update with partial verification level",
+ "C11a": "start_flashloan naming an end_flashloan of another account that merely lists the started account among its remaining accounts",
+ "C11b": "bracket ending below the initial requirement",
+ "C12a": "emissions-flag write on a bank carrying CLOSE_ENABLED (or any non-group, non-emission bit)", "C12b": "first deleverage withdrawal after the daily window rolled over",
+ "C13a": "e-mode entry present, then configure_bank changing only the maintenance liability weight",
+ "C13b": "edit_staked_settings(max age < 10) then propagate to a staked bank whose oracle is unchanged",
+ "C14a": "pause, extending pause, propagate before the extended start", "C14b": "reduce-only collateral bank with an applicable e-mode entry",
+ "C15a": "unpause between two pauses at realistic clock values", "C15b": "admin unpause of a pause that ran out without being cleared",
+ "C17a": "borrow limit active, liability share value above asset share value", "C17b": "withdraw_all from a nearly fully lent bank whose vault holds uncollected fees",
+ "C18a": "curve without interior points and zero rate above hundred rate", "C18b": "curve with a flat segment",
+ "C19a": "interaction while the position is ineligible for emissions, later eligible", "C19b": "fee collection with liquidity below the sum of whole-token buckets",
+ "C20a": "Kamino reserve whose pending referrer fees differ from the accumulated ones", "C20b": "adjust_i128 with |raw| in [2^79, 2^80)",
+ "C01c": "origination fee with non-zero program fee rate", "C01d": "repay_all of a liability whose fraction exceeds 0.5",
+})
 FIRST = {  # what the first run of the checks (before strengthening) reported, and what was strengthened
  "C01a": ("missed", "ledgerfee model instance now runs with program fees disabled and starts with an open debt; ledger driver switches program fees off in a third of its histories"),
  "C05a": ("missed", "liq driver: collateral bank gets a borrower so balances are fractional, recorded forks probe floor/ceil/ceil+1 of the balance; C05 clauses 'seized_collateral_did_not_become_debt' made strict and 'seizing_opens_no_debt_in_the_collateral_bank' added; borrow search bound fixed"),
@@ -24,6 +49,27 @@ FIRST = {  # what the first run of the checks (before strengthening) reported, a
  "C10b": ("missed", "recv driver: controlled dollar values on both sides of the $5 threshold with binary-searched seize boundaries"),
  "C16b": ("missed", "struct driver: second user depositing into the staked-retagged bank, made unhealthy through the debt price, liquidated by a liquidator with default-tag positions"),
 }
+FIRST.update({
+ "C02b": ("missed", "liq driver: transfer after bankruptcy (recorded fork); C02 now also validates the liq driver trace"),
+ "C02c": ("missed", "liq driver lowers the collateral bank's deposit cap below its deposits before liquidating"),
+ "C02d": ("missed", "ledger driver: exact-amount exits after accrual followed by close_balance"),
+ "C04d": ("missed", "risk driver: collateral banks with a deposit share value off 1"),
+ "C07a": ("missed", "liq driver: bankruptcy with stale / doctored / substituted collateral oracle; C07 clause every_holding_priced_before_write_off"),
+ "C08a": ("missed", "Roles.tla (role re-assignment x probes) + clause role_is_held_by_the_key_the_admin_assigned"),
+ "C08b": ("missed", "staked banks executable; C08Sub clauses on substituted price accounts; staked driver"),
+ "C09b": ("missed", "liq driver: bankruptcy with unusable collateral oracle"),
+ "C09d": ("missed", "risk driver: partially verified / wrong-owner / wrong-discriminator oracle variants"),
+ "C11a": ("missed", "TxShape symbol EFL1X2 (another account's end listing the started account)"),
+ "C13a": ("missed", "Config.tla: every configuration entry path x dyadic weights on both sides of the leverage caps"),
+ "C13b": ("missed", "staked driver edits + propagates settings; C13 now judges staked-tag banks"),
+ "C14a": ("missed", "C14 clauses group_receives_an_exact_copy_of_the_protocol_pause and not_refused_for_pause_once_it_ran_out"),
+ "C14b": ("missed", "C14 clause reduce_only_deposits_count_for_nothing_toward_new_borrowing; risk driver trace validated under C14"),
+ "C17a": ("missed", "caps driver: accrue, then bisect the largest accepted borrow under the cap"),
+ "C17b": ("missed", "caps driver: nearly fully lent bank, small lender leaves by amount and by withdraw-all"),
+ "C19a": ("missed", "C19 clause position_clock_restarts_at_every_interaction"),
+ "C20a": ("missed", "integ functions kamino.total / kamino.full.c2l / solend.total with all supply components; composition clauses"),
+ "C20b": ("missed", "I80F48 integer-range alphabets for adjust_i128; clause no_wrapped_value"),
+})
 for d in sorted(os.listdir(os.path.join(ROOT, "seeded"))):
     mp = os.path.join(ROOT, "seeded", d, "meta.json")
     rp = os.path.join(ROOT, "seeded", d, "result.txt")
